@@ -1,4 +1,5 @@
 import JsonPathVerif.Pointer
+import JsonPathVerif.PathAst
 /-! # C09 – reference / reference_mut resolve a path to exactly its node (step-list layer)
 
 Lens laws of the repaired walk over name/index steps. The connection between a Normalized Path string
@@ -195,4 +196,13 @@ theorem frame (v : Json) : ∀ (steps other : List PStep) (d d' : Json), Diverge
 #print axioms put_get
 #print axioms frame
 #print axioms walk_spec
+/-- get law tied to locations and to queries (AST level): the walk that `reference` performs over the AST of the Normalized Path of
+`l` returns the node at `l` – the same node, at the same location, that running that path as a query returns (`C03c_ast`) – and
+`None` when `l` does not exist -/
+theorem reference_get_ast (d : Json) (l : Loc) (h : plainLoc l = true) :
+    (pathSteps (segsOfLoc l)).bind (walk d []) = (d.at l).map fun v => (l, v) := reference_of_npath_ast d l h
+
+/-- non-vacuity: names with `/`, `~`, blanks and digits are plain (they need no escaping in a Normalized Path) -/
+example : plainLoc [.key "a/b".toList, .idx 3, .key "~0".toList, .key "x y".toList, .key "10".toList] = true := by decide
+
 end JP.C09
